@@ -27,8 +27,8 @@ from code_data import (
     Varname,
 )
 
-H = 20.0
-H_BIG = 240.0
+H = 60.0  # per-call horizon (seconds): generous, it only turns non-termination into an observation
+H_BIG = 900.0
 LINETABLE = PY >= (3, 10)
 # operands of jumps count bytes before 3.10 and code units from 3.10
 U1 = 256 if LINETABLE else 128  # instructions after which a jump operand needs 2 units
@@ -402,6 +402,20 @@ def constpair_cases(tier):
         yield {"k": "constrow", "s": "CP", "i": i}
 
 
+NESTED_VALUES = [-1, -2, 0, 2 ** 61 - 1, "a", b"a", 1, True, 1.0, 0.0, -0.0]
+
+
+def nested_fn(v):
+    """Hand-built CodeData of `lambda: v`."""
+    return mk([[I("LOAD_CONST", Constant(v)), I("RETURN_VALUE")]], type=Function(Args()), name="<lambda>")
+
+
+def nestedpair_cases(tier):
+    for i in range(len(NESTED_VALUES)):
+        for j in range(len(NESTED_VALUES)):
+            yield {"k": "nestedpair", "s": "NP", "i": i, "j": j}
+
+
 def sig_cases(tier):
     pos = (0, 1, 2) if PY >= (3, 8) else (0,)
     for po in pos:
@@ -508,6 +522,7 @@ class C03(Monitor):
             ("T", lambda: table_cases(t), n_table_cases(t)),
             ("LN", lambda: line_cases(t), n_line_cases(t)),
             ("CP", lambda: constpair_cases(t), consts.size("quick")),
+            ("NP", lambda: nestedpair_cases(t), len(NESTED_VALUES) ** 2),
             ("SG", lambda: sig_cases(t), n_sig_cases(t)),
             ("OV", lambda: override_cases(t), n_override_cases(t)),
             ("ED", lambda: self.edit_cases(), self.n_edit_cases()),
@@ -555,6 +570,13 @@ class C03(Monitor):
             self.judge_override(case, build_override(case), stats)
         elif k == "constrow":
             self.const_row(case, stats)
+        elif k == "nestedpair":
+            # two nested code constants that differ in one constant of their own
+            # (values with colliding hashes, or == across types)
+            u, v = NESTED_VALUES[case["i"]], NESTED_VALUES[case["j"]]
+            x = mk([[I("LOAD_CONST", Constant(nested_fn(u))), I("LOAD_CONST", Constant(nested_fn(v))), I("BUILD_TUPLE", 2), I("RETURN_VALUE")]])
+            stats.sample("NP", {"nested constants": [short(u), short(v)]}, per=1)
+            self.judge(case, x, stats)
         elif k == "edit":
             self.edits(case, stats)
 
